@@ -204,7 +204,7 @@ def collect(ck, tier, ex):
 
 
 def run(prop, tier):
-    ck = vlib.Check(prop, tier, level="proof")
+    ck = vlib.Check(prop, tier, level="proof" if THEOREMS[prop] else "exploration")
     ck.assumptions = [
         "sequential consistency at hook-site granularity; exactly one thread runs at a time in the harness (baton), time is virtual",
         "the bounded SPSC queue inside the model is Spsc.absApi run with newest-value loads (its weak-memory behaviour is C01's subject)",
